@@ -46,6 +46,23 @@ type Case struct {
 	Resume  string `json:"resume,omitempty"` // how range requests are answered
 	Mode    string `json:"mode"`             // read, rawbody, rewind@k
 	Data    string `json:"data,omitempty"`   // inline: right, wrong
+	// Stated: the descriptor states a size that differs from the length of the intended content
+	// (plus1, minus1, half, double); the digest is right and the store is intact unless Xform says otherwise
+	Stated string `json:"stated,omitempty"`
+}
+
+func statedSize(n int, how string) int64 {
+	switch how {
+	case "plus1":
+		return int64(n) + 1
+	case "minus1":
+		return int64(n) - 1
+	case "half":
+		return int64(n) / 2
+	case "double":
+		return int64(n) * 2
+	}
+	return int64(n)
 }
 
 func (c Case) String() string {
@@ -255,6 +272,9 @@ func run(t *testing.T, c Case, scratch string) outcome {
 	if c.Sized {
 		d.Size = int64(len(x))
 	}
+	if c.Stated != "" {
+		d.Size = statedSize(len(x), c.Stated)
+	}
 	y := xform(x, c.Xform)
 	ctx := context.Background()
 	tr := &rt{c: c, served: y, drops: append([]int{}, c.Drops...)}
@@ -319,6 +339,13 @@ func run(t *testing.T, c Case, scratch string) outcome {
 
 func judge(c Case, o outcome) (string, string) {
 	x := []byte(c.Content)
+	if o.clean && c.Stated != "" {
+		// the descriptor states a size (> 0, so it is a statement and not "unknown") that differs from
+		// the number of bytes delivered
+		if st := statedSize(len(x), c.Stated); st > 0 && st != int64(len(o.acc)) {
+			return "clean-read-of-wrong-length stated-size-ignored", fmt.Sprintf("read completed without error and delivered %d bytes, the descriptor states %d", len(o.acc), st)
+		}
+	}
 	if o.clean {
 		if !bytes.Equal(o.acc, x) {
 			// clean completion with bytes that do not hash to the descriptor's digest (the intended
@@ -335,7 +362,7 @@ func judge(c Case, o outcome) (string, string) {
 		return "no-termination", o.err.Error()
 	}
 	// non-vacuity / liveness: an intact stream must be readable
-	intact := c.Xform == "id" && (c.CL == "right" || c.CL == "absent" || c.CL == "intended") &&
+	intact := c.Stated == "" && c.Xform == "id" && (c.CL == "right" || c.CL == "absent" || c.CL == "intended") &&
 		(len(c.Drops) == 0 || ((c.Resume == "correct" || c.Resume == "500-then-correct") && (c.Sized || c.CL != "absent")))
 	// (a drop can only be recognised and resumed when the total length is known from the descriptor
 	// or the Content-Length header; without either the early end is reported as an error, which the
@@ -459,6 +486,32 @@ func enumerate(thorough bool, emit func(Case)) {
 						}
 					}
 				}
+				// a descriptor whose stated size differs from the content it names (digest right)
+				if sized {
+					for _, st := range []string{"plus1", "minus1", "half", "double"} {
+						if v := statedSize(n, st); v <= 0 || v == int64(n) {
+							continue // size 0 means unknown
+						}
+						for _, xf := range []string{"id", "extra1", "trunc@1"} {
+							if xf == "trunc@1" && n < 2 {
+								continue
+							}
+							for _, store := range []string{"reg", "dir", "inline"} {
+								cls := []string{"right"}
+								if store == "reg" {
+									cls = []string{"right", "absent", "intended"}
+								}
+								for _, cl := range cls {
+									for _, rd := range [][]int{{64}, {1, 64}, {2, 1, 64}} {
+										emit(Case{Content: x, Algo: algo, Sized: true, Store: store, Xform: xf, CL: cl, Reads: rd, Mode: "read", Stated: st, Data: "right"})
+									}
+									emit(Case{Content: x, Algo: algo, Sized: true, Store: store, Xform: xf, CL: cl, Mode: "rawbody", Stated: st, Data: "right"})
+									emit(Case{Content: x, Algo: algo, Sized: true, Store: store, Xform: xf, CL: cl, Reads: []int{2, 64}, Mode: "rewind@1", Stated: st, Data: "right"})
+								}
+							}
+						}
+					}
+				}
 				// inline data
 				for _, data := range []string{"right", "wrong"} {
 					for _, xf := range []string{"id", "subst-same", "extra1"} {
@@ -476,7 +529,7 @@ func enumerate(thorough bool, emit func(Case)) {
 func TestVerifC01(t *testing.T) {
 	rec := ev.New()
 	defer rec.Flush(t)
-	rec.Rule("case = content (all strings over {a,b} of length 0..4, thorough 0..6, plus one 70-byte string) x digest algorithm x size stated/unknown x store {registry (scripted transport), OCI layout file, inline data} x served-stream transformation {identity, flip at every offset, truncation at every offset, 1-2 extra bytes, substitution of equal / greater / smaller length} x Content-Length {right, absent, +1, -1, of the intended content} x every composition of read sizes from {1,2,3} (plus large reads and zero-length reads) x EOF with / after the last data x mode {read, RawBody, rewind after k bytes then read} x connection drops at every offset (1, and 2 nearby) x range answer {correct, shifted -1/+1, other bytes, 200 full body, 206 without Content-Range, 416, 500 then correct}. " +
+	rec.Rule("case = content (all strings over {a,b} of length 0..4, thorough 0..6, plus one 70-byte string) x digest algorithm x size stated/unknown/stated wrongly (±1, half, double; digest right) x store {registry (scripted transport), OCI layout file, inline data} x served-stream transformation {identity, flip at every offset, truncation at every offset, 1-2 extra bytes, substitution of equal / greater / smaller length} x Content-Length {right, absent, +1, -1, of the intended content} x every composition of read sizes from {1,2,3} (plus large reads and zero-length reads) x EOF with / after the last data x mode {read, RawBody, rewind after k bytes then read} x connection drops at every offset (1, and 2 nearby) x range answer {correct, shifted -1/+1, other bytes, 200 full body, 206 without Content-Range, 416, 500 then correct}. " +
 		"Oracle: a read that ends in io.EOF delivered exactly the intended content (the only string of the alphabet with that digest); an intact stream (with correct resumes) must be readable. distinct_nontrivial = cases whose served stream differs from the intended content or involves a drop")
 	rec.Assume("the scripted transport hands out bodies the way net/http does (never more than Content-Length bytes; early close = unexpected EOF)")
 	rec.Assume("two distinct strings of the enumerated alphabet never share a digest")
